@@ -18,7 +18,7 @@ func Verif_C15_notification_value_roundtrip() {
 	x := &Notification{Code: verifU8("code"), Subcode: verifU8("subcode"), Data: data}
 	enc, err := x.encode()
 	verifAssert("encode-ok", err == nil)
-	c15HeaderOK("notif", enc, notificationMessageType, 2+len(data))
+	c15HeaderOK("notif", enc, verifMsgNotification, 2+len(data))
 	verifAssume(len(enc) >= 19)
 	var y Notification
 	err = y.decode(enc[19:])
@@ -36,7 +36,7 @@ func Verif_C15_notification_bytes_roundtrip() {
 	b := verifBuf("body", 0, 4077)
 	var n Notification
 	err := n.decode(b)
-	m, merr := messageFromBytes(b, notificationMessageType)
+	m, merr := messageFromBytes(b, verifMsgNotification)
 	verifAssert("accept-iff-fixed-fields-present", (err == nil) == (len(b) >= 2))
 	verifAssert("messageFromBytes-agrees", (merr == nil) == (err == nil))
 	if err != nil {
@@ -116,7 +116,7 @@ func c15OpenBytes(tag string, maxLen, P, C int) {
 	}
 	o := &openMessage{}
 	err := o.decode(b)
-	m, merr := messageFromBytes(b, openMessageType)
+	m, merr := messageFromBytes(b, verifMsgOpen)
 	verifAssert("messageFromBytes-agrees", (merr == nil) == (err == nil))
 	if err != nil {
 		verifAssert("reject-only-malformed", !ok)
@@ -185,7 +185,7 @@ func Verif_C15_open_value_roundtrip() {
 	verifAssume(total <= 255)
 	enc, err := o.encode()
 	verifAssert("encode-ok", err == nil)
-	c15HeaderOK("open", enc, openMessageType, 10+total)
+	c15HeaderOK("open", enc, verifMsgOpen, 10+total)
 	verifAssume(len(enc) >= 19)
 	d := &openMessage{}
 	err = d.decode(enc[19:])
@@ -330,11 +330,11 @@ func Verif_C15_encodings_are_independent() {
 	e2, _ := n2.encode()
 	k2, _ := keepAliveMessage{}.encode()
 	verifAssert("open-encodes", oerr == nil)
-	c15HeaderOK("first-keepalive-still", k1, keepAliveMessageType, 0)
-	c15HeaderOK("second-keepalive", k2, keepAliveMessageType, 0)
-	c15HeaderOK("first-notification-still", e1, notificationMessageType, 2+len(d1))
-	c15HeaderOK("second-notification", e2, notificationMessageType, 2+len(d2))
-	c15HeaderOK("open-still", eo, openMessageType, 10+2+2+len(cv))
+	c15HeaderOK("first-keepalive-still", k1, verifMsgKeepalive, 0)
+	c15HeaderOK("second-keepalive", k2, verifMsgKeepalive, 0)
+	c15HeaderOK("first-notification-still", e1, verifMsgNotification, 2+len(d1))
+	c15HeaderOK("second-notification", e2, verifMsgNotification, 2+len(d2))
+	c15HeaderOK("open-still", eo, verifMsgOpen, 10+2+2+len(cv))
 	verifAssume(len(e1) >= 21 && len(e2) >= 21)
 	verifAssert("first-notification-fields-still", e1[19] == n1.Code && e1[20] == n1.Subcode)
 	verifAssertBytesEq("first-notification-data-still", e1[21:], d1)
